@@ -137,7 +137,9 @@ func (s *StubUpstream) ExchangeContext(_ context.Context, b []byte) (*[]byte, er
 	if err != nil {
 		return nil, fmt.Errorf("stub: reply does not pack: %w", err)
 	}
-	return &out, nil
+	buf := pool.GetBuf(len(out)) // forward releases the reply buffer to the pool
+	copy(*buf, out)
+	return buf, nil
 }
 
 // ---------- observing the entry executable ----------
@@ -261,10 +263,10 @@ var ErrSlow = errors.New("run too slow, repeated without success")
 
 // Run builds the program with fresh plugins and sends the queries through
 // EntryHandler.Handle one after the other.
-func (c *Case) Run(r *hx.RNG) (*Result, error) {
+func (c *Case) Run(render func() *hx.RNG) (*Result, error) {
 	for attempt := 0; attempt < 6; attempt++ {
 		rec := &Recorder{}
-		b, err := Build(r, c.Xs, c.Ws, c.Scripts, c.Prog, rec)
+		b, err := Build(render(), c.Xs, c.Ws, c.Scripts, c.Prog, rec)
 		if err != nil {
 			return nil, err
 		}
